@@ -124,8 +124,13 @@ fn all_jobs(thorough: bool) -> Vec<(String, Vec<u8>)> {
     for m in mutations("content", &content_seed(), thorough) { jobs.push(("content".into(), m)); }
     for m in mutations("cmap", &cmap_seed(), thorough) { jobs.push(("cmap".into(), m)); }
     for m in mutations("text", b"\xfe\xff\xd8\x3d\xde\x00\x00a", true) { jobs.push(("text".into(), m)); }
-    // filters: all selector/parameter bytes over three payloads
-    for a in 0..3u8 { for b in 0..54u8 { for c in (0..81u8).step_by(if thorough { 1 } else { 5 }) { for e in 0..2u8 { for payload in [&b"x\x9c\x03\x00\x00\x00\x00\x01"[..], b"\x02abc\x01def\x04xyz\x03pqr\x00", b"s8W-!s8W-\"zz!!~>"] { let mut m = vec![a, b, c, e]; m.extend_from_slice(payload); jobs.push(("filter".into(), m)); } } } } }
+    // filters: all selector/parameter bytes over six payloads
+    // the last three payloads are valid zlib data whose plain length (5, 7, 11 bytes) is not a whole number of predictor rows
+    // for Columns 1 or 2: a truncated last row after complete ones
+    let zl = |d: &[u8]| { use std::io::Write as _; let mut e = flate2::write::ZlibEncoder::new(Vec::new(), flate2::Compression::default()); e.write_all(d).unwrap(); e.finish().unwrap() };
+    let payloads: Vec<Vec<u8>> = vec![b"x\x9c\x03\x00\x00\x00\x00\x01".to_vec(), b"\x02abc\x01def\x04xyz\x03pqr\x00".to_vec(), b"s8W-!s8W-\"zz!!~>".to_vec(),
+        zl(b"\x00a\x01b\x02"), zl(b"\x02ab\x04cd\x03"), zl(b"\x01abc\x03de\x04fgh\x02")];
+    for a in 0..3u8 { for b in 0..54u8 { for c in (0..81u8).step_by(if thorough { 1 } else { 5 }) { for e in 0..2u8 { for payload in &payloads { let mut m = vec![a, b, c, e]; m.extend_from_slice(payload); jobs.push(("filter".into(), m)); } } } } }
     jobs
 }
 
@@ -154,7 +159,7 @@ fn spawn(from: usize, to: usize, thorough: bool) -> std::process::Child {
 
 pub fn run(thorough: bool) -> Report {
     let jobs = all_jobs(thorough);
-    let mut rep = Report::new("seeds: 4 small documents (table / xref stream / Flate+predictor xref stream with object stream / incremental), a content stream, a ToUnicode CMap, a text string; inputs: every single-byte substitution (quick: 25 lexically significant values, thorough: all 256) at every offset, every truncation, splices, 17 numeric extremes in every digit run, W/Index/Prev/Length/Kids constructions, nesting depth up to 3000 (thorough 100000) for [ << ( and dictionaries, all filter-parameter selector combinations; each in a worker with a 2 MiB stack, 4 GB address space and a 10 s watchdog", false);
+    let mut rep = Report::new("seeds: 4 small documents (table / xref stream / Flate+predictor xref stream with object stream / incremental), a content stream, a ToUnicode CMap, a text string; inputs: every single-byte substitution (quick: 25 lexically significant values, thorough: all 256) at every offset, every truncation, splices, 17 numeric extremes in every digit run, W/Index/Prev/Length/Kids constructions, nesting depth up to 3000 (thorough 100000) for [ << ( and dictionaries, all filter-parameter selector combinations over six payloads (empty deflate, raw rows, ASCII85, and three zlib streams ending in a truncated predictor row); each in a worker with a 2 MiB stack, 4 GB address space and a 10 s watchdog", false);
     let n = jobs.len();
     let workers = 16usize;
     let chunk = (n + workers - 1) / workers;
